@@ -58,6 +58,18 @@ Definition median_filter (B w ny nx : Z) (data : map2) : map2 :=
       loop2 (fun i j => nanmedian (window data w i j)) B ny nx my mx radius radius data in
     fun r c => if is_none (data r c) then None else data_median r c.   (* [invalid] = nan *)
 
+(* the code as found (before the fix: commit): no early return; sliding_window raised ValueError
+   (None) when the image had fewer than w - 1 rows or columns.  Kept for the regression Example. *)
+Definition median_filter_before (B w ny nx : Z) (data : map2) : option map2 :=
+  let my := ny - w + 1 in
+  let mx := nx - w + 1 in
+  if (my <? 0) || (mx <? 0) then None
+  else
+    let radius := w / 2 in
+    let data_median :=
+      loop2 (fun i j => nanmedian (window data w i j)) B ny nx my mx radius radius data in
+    Some (fun r c => if is_none (data r c) then None else data_median r c).
+
 (* MedianFilter.filter_disparity: (disparity map, validity mask) -> the same pair after the call *)
 Definition invalid_px (inv m : Z) : bool := negb (Z.land m inv =? 0).
 
